@@ -311,7 +311,20 @@ def correspondence(ctx):
     ev += cc["evaluations"]
     dn += cc["distinct_nontrivial"]
     hist.update(cc["hist"])
-    return dict(evaluations=ev, distinct_nontrivial=dn, hist=hist,
+    # ---- hosted families of sibling checks that judge this property's clauses on other paths
+    notes = []
+    import importlib
+    for modname, fn, label in (("checks.c18", "sasl_framing_cases", "SASL exchange framing per negotiated versions (Dialer and Transport)"),
+                               ("checks.c05", "frame_sweep_cases", "frame back-patching across 64 KiB page boundaries")):
+        try:
+            hc = getattr(importlib.import_module(modname), fn)(ctx)
+            failures += hc.get("failures", [])
+            ev += hc.get("evaluations", 0)
+            dn += hc.get("distinct_nontrivial", 0)
+            hist.update(hc.get("hist", {}))
+        except (ModuleNotFoundError, AttributeError):
+            notes.append(f"{modname} has no {fn} yet ({label})")
+    return dict(evaluations=ev, distinct_nontrivial=dn, hist=hist, notes=notes,
                 rule="for every registered (api, direction, version) — 334 schemas from the translator — values generated by reflection from one PRNG "
                      "(boundary ints, empty/nil/long strings and bytes incl. the 127/128 compact-length boundary, nil/empty/nested arrays, tagged fields), "
                      "encoded by the real WriteRequest/WriteResponse, by the extracted model and by an independent layout encoder, byte-compared, "
